@@ -125,5 +125,18 @@ CHECKS["C18"] = {
     "note": "trusted: TLC + Json; simulated filesystem; artifact paths are matched against dir/base.pem rendered by the driver. n<=6 of the property is "
             "reduced to n<=5 (8.4 M issuer functions at n=6 are not enumerated); CLI exit status is covered by the CLI slice of C10",
 }
+CHECKS["C02"] = {
+    "engine": "tlc-spec", "category": "exploration", "design_ref": "6/C02, 3 (DER.tla, X509.tla), 7",
+    "technique": "strict DER reader and RFC 5280 certificate grammar written in TLA+ (DER.tla, X509.tla) used by TLC as the independent parser: "
+                 "every certificate the real pipeline produced for a catalogue of configurations is decoded and judged (trace validation)",
+    "text": "TLA+ is used here as an executable, independent reference decoder, not as a transition system (DESIGN.md 7): TLC walks every TLV of "
+            "every produced certificate (definite minimal lengths, INTEGER/BOOLEAN/BIT STRING/OID/time/string canonicity, exact fill of constructed "
+            "values), applies the X.509v3 grammar (version, serial <= 20 octets non-negative, inner = outer AlgorithmIdentifier with the parameters the "
+            "algorithm requires, time type by year, DEFAULT FALSE absent, non-empty extensions, structured extension values canonical, keyUsage a "
+            "minimal named-bit list) and lists every complaint. Catalogue: subjects, validity ranges 1950-2199 and time zones, configured and fresh "
+            "serials, unique ids, all key/signature pairs, extension sets 0-12 with payloads up to 64 KiB (thorough).",
+    "note": "trusted: TLC; the TLA+ grammar itself (cross-checked against crypto/x509, which must accept every RSA/NIST certificate and read the same "
+            "fields, and against gopki's own ReadPem/WritePem round trip); exploration level - the catalogue is finite classes plus seeded samples",
+}
 for e in ENGINES:
     e["serves_properties"] = sorted(CHECKS)
